@@ -7,10 +7,10 @@ D="$WT/seed_$L.diff"; DEMO="$WT/demo_$L.py"
 [ -f "$D" ] || { echo "no $D"; exit 9; }
 cd "$WT" || exit 9
 git checkout -q -- gemato utils 2>/dev/null
-/venv/bin/python "$DEMO" >/tmp/seed_demo_out.txt 2>&1; echo "demo without change: exit $?"
+/venv/bin/python "$DEMO" >"$WT/.demo_out_$L.txt" 2>&1; echo "demo without change: exit $?"
 git apply "$D" || { echo "PATCH DOES NOT APPLY in worktree"; exit 9; }
 echo -n "tests with change: "; /verif/tools/baseline.py "$WT" | head -3 | tr '\n' ' '; echo
-/venv/bin/python "$DEMO" >/tmp/seed_demo_out.txt 2>&1; echo "demo with change: exit $? ($(tail -1 /tmp/seed_demo_out.txt | cut -c1-120))"
+/venv/bin/python "$DEMO" >"$WT/.demo_out_$L.txt" 2>&1; echo "demo with change: exit $? ($(tail -1 "$WT/.demo_out_$L.txt" | cut -c1-120))"
 cd /verif
 for pid in "$@"; do
   out=$(PYTHONPATH="$WT" GVERIF_C20_UTILS="$WT/utils" timeout 1800 /venv/bin/python -m gverif.run "$pid" --tier "${TIER:-quick}" 2>&1); rc=$?
